@@ -52,8 +52,13 @@ func (fs *FS) Sub(dir string) (hackpadfs.FS, error) {
 	if !hackpadfs.ValidPath(dir) {
 		return nil, &hackpadfs.PathError{Op: "sub", Path: dir, Err: hackpadfs.ErrInvalid}
 	}
+	root := path.Join(fs.root, dir)
+	if root == "." {
+		// Sub(".") of an FS without a root: still no root. FromOSPath compares OS paths with the root, which "." never prefixes.
+		root = ""
+	}
 	return &FS{
-		root:       path.Join(fs.root, dir),
+		root:       root,
 		volumeName: fs.volumeName,
 	}, nil
 }
